@@ -43,6 +43,9 @@ def gen_plan(prop, run_seed, tier):
     w, s = F.fork("workload"), F.fork("schedule")
     specs = [gen.gen_screen(w, n_rows=w.randint(3, 30), dup_rate=0.35, observed_rate=w.choice([0.0, 0.4, 0.6, 1.0])),
              gen.gen_screen(w, n_rows=w.randint(2, 12))]
+    for sp in specs:
+        if w.random() < 0.25:
+            gen.add_space_extra(w, sp)
     n = s.randint(3, 16 if tier == "quick" else 30)
     steps = [dict(op=s.choice(OPS), sub=s.randrange(2**31)) for _ in range(n)]
     return dict(engine="viewsim", prop=prop, screens=specs, steps=steps)
@@ -191,6 +194,8 @@ def execute(prop, plan):
                 v1 = rnd.choice(pool)
                 same = [x for x in pool if x.base == v1.base]
                 k = rnd.randint(1, min(4, len(same)))
+                if rnd.random() < 0.04:  # very many (overlapping, repeated) views in one call
+                    k = rnd.choice([255, 256, 257, 300, 512, 513])
                 chosen = [v1] + [rnd.choice(same) for _ in range(k - 1)]
                 view = type(v1.view).concat([c.view for c in chosen])
                 idx = frozenset().union(*[c.idx for c in chosen])
